@@ -104,6 +104,25 @@ def run(ctx):
                     k = np.argwhere(diff)[0]
                     ctx.alarm('correspondence', '%s: pixel of depth %r is in plane %d, model says %d (n=%d)'
                               % (cls_name, float(depth[k[0], k[1]]), int(impl_idx[k[0], k[1]]), int(model_idx[k[0], k[1]]), n))
+        # ---- defocus with other (larger) blur sizes: the i = j kernel must stay a delta for every kernel length the constructor can produce
+        if (n, ch, h, w) in ((3, 3, 16, 16), (2, 3, 16, 16)) or (not ctx.quick and h >= 9 and n in (2, 4)):
+            for bs in ((10, 33, 56, 76) if ctx.quick else (7, 10, 20, 21, 33, 47, 56, 76, 90, 104, 128)):
+                ctx.case(('defocus_blur_size', n, ch, h, w, bs), True)
+                ctx.count('defocus/blur_size_%d' % bs)
+                try:
+                    ob = LW.multiplane_loss(timg, tdepth, number_of_planes=n, target_blur_size=bs, blur_ratio=0.5, scheme='defocus')
+                except Exception as e:
+                    ctx.violation('multiplane_loss(target_blur_size=%d) raised %r' % (bs, e), dict(rec, blur_size=bs), {'fn': 'multiplane_loss', 'what': 'raises'})
+                    continue
+                tg_df = ob.get_targets()[0].numpy()
+                mk_df = ob.masks.numpy()
+                inf_ = mk_df == 1
+                ref_ = (mk_df * image[None])[inf_] * ob.multiplier
+                if not np.all(np.isfinite(tg_df)) or not np.allclose(tg_df[inf_], ref_, atol=1e-5):
+                    ctx.violation('multiplane_loss(target_blur_size=%d): defocus blur changes in-focus pixels (finite: %s, max deviation %s)'
+                                  % (bs, bool(np.all(np.isfinite(tg_df))), float(np.nanmax(np.abs(tg_df[inf_] - ref_))) if np.any(np.isfinite(tg_df[inf_])) else 'nan'),
+                                  dict(rec, blur_size=bs), {'fn': 'multiplane_loss', 'what': 'defocus_infocus', 'blur_size': bs})
+                    break
         # ---- slice_rgbd_targets: sorted positions spanning the depth range
         if n >= 1:
             for variant in ('linspace', 'random', 'duplicates'):
